@@ -481,3 +481,76 @@ Proof.
   apply filter_In in I1, I2. destruct I1 as [_ I1], I2 as [_ I2].
   unfold shard_pred in *. cbn [snd] in *. apply Z.eqb_eq in I1, I2. now split.
 Qed.
+
+(* ------------------------------------------------------------------ stringlabels encoding *)
+Lemma decode_size_encode n r : 0 <= n < 16777216 -> decode_size (encode_size n ++ r) = Some (n, r).
+Proof.
+  intros Hn. unfold encode_size. destruct (n <? 255) eqn:E.
+  - apply Z.ltb_lt in E. cbn [app decode_size].
+    replace (Z.to_N n <? 255)%N with true by (symmetry; apply N.ltb_lt; lia).
+    now rewrite Z2N.id by lia.
+  - apply Z.ltb_ge in E. cbn [app decode_size].
+    replace (255 <? 255)%N with false by reflexivity.
+    rewrite !Z2N.id by (try apply Z.mod_pos_bound; lia).
+    f_equal. f_equal.
+    pose proof (Z.div_mod n 256 ltac:(lia)).
+    pose proof (Z.div_mod (n / 256) 256 ltac:(lia)).
+    pose proof (Z.mod_pos_bound n 256 ltac:(lia)).
+    pose proof (Z.mod_pos_bound (n / 256) 256 ltac:(lia)).
+    assert (n / 65536 = n / 256 / 256) by (rewrite Z.div_div by lia; reflexivity).
+    assert (0 <= n / 65536 < 256) by (split; [apply Z.div_pos; lia|apply Z.div_lt_upper_bound; lia]).
+    rewrite (Z.mod_small (n / 65536) 256) by assumption. lia.
+Qed.
+
+Lemma decode_string_encode s r : len s < 16777216 -> decode_string (encode_string s ++ r) = Some (s, r).
+Proof.
+  intros Hs. unfold encode_string, decode_string. rewrite <- app_assoc.
+  rewrite decode_size_encode by (pose proof (len_nonneg s); lia).
+  replace (Z.of_nat (length (s ++ r)) <? len s) with false
+    by (symmetry; apply Z.ltb_ge; unfold len; rewrite app_length; lia).
+  unfold len. rewrite Nat2Z.id.
+  rewrite firstn_app, Nat.sub_diag, firstn_all, firstn_O, app_nil_r.
+  rewrite skipn_app, Nat.sub_diag, skipn_all. reflexivity.
+Qed.
+
+Definition sizes_ok (ls : labels) : Prop :=
+  Forall (fun v => len (l_name v) < 16777216 /\ len (l_value v) < 16777216) ls.
+
+Lemma encode_string_nonempty s : exists x t, encode_string s = x :: t.
+Proof.
+  unfold encode_string, encode_size. destruct (len s <? 255); cbn [app]; eauto.
+Qed.
+
+Lemma sl_decode_encode ls : forall fuel, sizes_ok ls -> (length ls <= fuel)%nat ->
+  sl_decode fuel (sl_encode ls) = Some ls.
+Proof.
+  induction ls as [|v ls IH]; intros fuel Hok Hf.
+  - destruct fuel; reflexivity.
+  - inversion Hok as [|v' ls' [Hn Hv] Hok']; subst.
+    cbn [sl_encode flat_map]. fold (sl_encode ls).
+    destruct (encode_string_nonempty (l_name v)) as [x [t Ex]].
+    destruct fuel as [|k]; [cbn in Hf; lia|].
+    remember ((encode_string (l_name v) ++ encode_string (l_value v)) ++ sl_encode ls) as d eqn:Ed.
+    assert (Hd : exists y d', d = y :: d') by (rewrite Ed, Ex; cbn [app]; eauto).
+    destruct Hd as [y [d' Hd]]. rewrite Hd. cbn [sl_decode]. rewrite <- Hd, Ed.
+    rewrite <- !app_assoc. rewrite decode_string_encode by assumption.
+    rewrite decode_string_encode by assumption.
+    rewrite IH by (try assumption; cbn in Hf; lia).
+    destruct v; reflexivity.
+Qed.
+
+Lemma sl_encode_length ls : (length ls <= length (sl_encode ls))%nat.
+Proof.
+  induction ls as [|v ls IH]; [cbn; lia|].
+  cbn [sl_encode flat_map]. fold (sl_encode ls). rewrite !app_length. cbn [length].
+  destruct (encode_string_nonempty (l_name v)) as [x [t ->]]. cbn [length]. lia.
+Qed.
+
+(* the stringlabels StableHash, which walks the size-prefixed encoding, sees exactly the
+   label sequence that was encoded *)
+Lemma feed_string_data_encode ls : sizes_ok ls ->
+  feed_string_data (sl_encode ls) = Some (feed_string [] None ls).
+Proof.
+  intros Hok. unfold feed_string_data.
+  now rewrite sl_decode_encode by (try assumption; apply sl_encode_length).
+Qed.
